@@ -589,6 +589,9 @@ impl<B: BufSlice<N>, const N: usize> FdOpExtract for WriteVectoredOp<B, N> {
     }
 }
 
+/// The input of a splice operation is a direct descriptor.
+const SPLICE_F_FD_IN_FIXED: u32 = 1 << 31;
+
 pub(crate) struct SpliceOp;
 
 impl FdOp for SpliceOp {
@@ -614,9 +617,14 @@ impl FdOp for SpliceOp {
             splice_off_in: *off_in,
         };
         submission.0.len = *length;
-        submission.0.__bindgen_anon_3 = libc::io_uring_sqe__bindgen_ty_3 {
-            splice_flags: flags.0,
-        };
+        let mut splice_flags = flags.0;
+        if let (SpliceDirection::To, fd::Kind::Direct) = (*direction, fd.kind()) {
+            // The direct descriptor is the input, not the output (`fd` in the
+            // submission) that `IOSQE_FIXED_FILE` describes.
+            splice_flags |= SPLICE_F_FD_IN_FIXED;
+            submission.0.flags &= !libc::IOSQE_FIXED_FILE;
+        }
+        submission.0.__bindgen_anon_3 = libc::io_uring_sqe__bindgen_ty_3 { splice_flags };
         submission.0.__bindgen_anon_5 = libc::io_uring_sqe__bindgen_ty_5 {
             splice_fd_in: fd_in,
         };
